@@ -118,10 +118,10 @@ type FS struct {
 	Quota    int64
 	written  int64
 	QuotaHit bool
-	handles    []io.Closer
-	stdout     []byte
-	stderr     []byte
-	ExitHook   func(code int)
+	handles  []io.Closer
+	stdout   []byte
+	stderr   []byte
+	ExitHook func(code int)
 }
 
 func NewFS(root string) *FS {
